@@ -64,7 +64,7 @@ def transform(outputs, flags):
     return out
 
 
-def run(rep: Report) -> None:
+def run(rep: Report, only_cls=None) -> None:
     rep.trusted += TRUSTED_WIRE
     cks = wire_results(rep, "flags", impls=("casadi", "numpy"))
     if not require_no_errors(rep, cks):
@@ -73,6 +73,8 @@ def run(rep: Report) -> None:
     n = 0
     for ck in cks:
         cfg = ck.cfg
+        if only_cls is not None and cfg.link_cls != only_cls:
+            continue
         base = by.get(replace(cfg, flags=frozenset(), history=()))
         if base is None:
             rep.undecided("clamp-identity", cfg.label(), "", "no flag-off counterpart")
@@ -113,7 +115,9 @@ def run(rep: Report) -> None:
         n += 1
         rep.check(ok, "clamp-identity", lab, "Network.step", detail,
                   key=f"clamp|{','.join(sorted(cfg.flags))}|{cfg.u_origin}|{cfg.link_cls}|{cfg.impl}")
-    rep.floor("flagged configurations", n, 50)
+    rep.floor("flagged configurations", n, 50 if only_cls is None else 10)
+    if only_cls is not None:
+        return
     # nothing clamped with all options off: over the whole base
     allc = wire_results(rep, "base") + [ck for ck in cks if not ck.cfg.flags]
     for ck in allc:
